@@ -320,6 +320,17 @@ def make_classes(ctx: Ctx) -> Dict[str, type]:
                 ctx.hostile_fired.append("spoof")
                 mon.on_hostile(self, "spoof", o)
                 return o
+            if k == "cancel_foreign":
+                # a cancel of somebody else's order (the runner's spoofing check covers cancels too)
+                cands = [mo for mo in mon.mm[market.market_id].orders.values()
+                         if mo.agent != self.agent_id and mo.obj is not None and mo.status == "live"]
+                if not cands:
+                    return None
+                cands.sort(key=lambda mo: mo.oid)
+                c = Cancel(order=cands[int(op.get("nth", 0)) % len(cands)].obj)
+                ctx.hostile_fired.append("cancel_foreign")
+                mon.on_hostile(self, "cancel_foreign", c)
+                return c
             if k == "resubmit":
                 op2 = dict(op)
                 op2["ref"] = op.get("ref", "any")
